@@ -42,10 +42,13 @@ func (c Cipher) DecryptReader(key []byte, stream filesystem.Reader) (reader file
 		fileCipher cipherfs.Cipher
 	)
 	if _, err = stream.Read(p); err != nil {
+		// the stream is refused: do not leave it open (it may hold a lock)
+		stream.Close()
 		return nil, err
 	}
 	ckey = NewCipherKey(p)
 	if fileCipher = c.mapping[ckey]; fileCipher == nil {
+		stream.Close()
 		return nil, goaterr.Errorf("Unknow cipher for %v key", ckey)
 	}
 	return fileCipher.DecryptReader(key, stream)
@@ -54,6 +57,7 @@ func (c Cipher) DecryptReader(key []byte, stream filesystem.Reader) (reader file
 // EncryptWriter create encrypt stream for AES GCM
 func (c Cipher) EncryptWriter(key []byte, stream filesystem.Writer) (writer filesystem.Writer, err error) {
 	if _, err = stream.Write(c.defaultCiperKey.ToBinary()); err != nil {
+		stream.Close()
 		return nil, err
 	}
 	return c.defaultCiper.EncryptWriter(key, stream)
